@@ -5,7 +5,8 @@ from vlib import Case, hx
 
 HARNESS = "sim_driver"
 LEAN_MODULES = ["ViaProofs.C10"]
-REQUIRED_THEOREMS = []
+LEMMA_MODULES = ['ViaProofs.ConnLemmas']
+REQUIRED_THEOREMS = ['Via.C10', 'Via.C10_filter_reject']
 LEVEL = "proof"
 TRUSTED_BASE = S.SIM_TRUSTED
 ASSUMPTIONS = S.SIM_ASSUMPTIONS
